@@ -98,7 +98,12 @@ def trace_check(data):
         got_src = ast.unparse(tree)
     except Exception as e:  # noqa: BLE001
         return f"tracing raised {type(e).__name__}: {e} although untraced decompilation succeeds"
-    names = [ln for ln in buf.getvalue().split("\n") if ln and not ln.startswith("\t")]
+    # opcode report lines = unindented lines that are pickle opcode names (a banner or summary
+    # line a future version might print is not an opcode report)
+    import pickletools
+
+    known = {o.name for o in pickletools.opcodes}
+    names = [ln.strip() for ln in buf.getvalue().split("\n") if ln and not ln[0].isspace() and ln.strip() in known]
     want_names = [op.name for op in p2]
     # the interpreter stops at STOP; opcodes after it are never run
     if "STOP" in want_names:
